@@ -171,8 +171,12 @@ NAME_POOLS = [
 ]
 
 
+KEYWORDS = ('states', 'final', 'initial', 'input_symbols', 'epsilon', 'stack_symbols', 'tape_symbols', 'blank', 'accept', 'reject')
+
+
 def random_names(rng, n, avoid=()):
-    """n distinct \\w+ state names"""
+    """n distinct \\w+ state names (never a keyword of the text formats)"""
+    avoid = tuple(avoid) + KEYWORDS
     mode = rng.randrange(4)
     if mode == 0:
         pool = list(rng.choice(NAME_POOLS))
